@@ -405,6 +405,10 @@ func (in *Interp) exec(t *rapid.T, inv *Invocation, body []*Stmt, where string, 
 			in.registerCleanup(t, inv, s, where)
 		case SCtx:
 			in.ctxSample(t, inv, s.Park, where)
+			if where != "cleanup" && len(inv.Ctxs) > 0 && inv.Ctxs[len(inv.Ctxs)-1].Ctx.Err() != nil {
+				// what a real property does with its context: it relies on it being live during the call
+				in.fail(t, inv, FKFatalf, 7, where)
+			}
 		case SLog:
 			in.doLog(t, inv, s)
 		case SRepeat:
